@@ -585,3 +585,175 @@ Proof.
   assert (Ha0 : a0 = (s, snd a0)) by (destruct a0; cbn in *; subst; reflexivity).
   exists k, p1, p2. rewrite <- Ha0. auto.
 Qed.
+
+(* ---------------------------------------------------------------- the merged event carries each source's own fields *)
+Fixpoint im_lookup (k : mkey) (m : list (mkey * N)) : option N :=
+  match m with
+  | [] => None
+  | (k', v) :: r => if mkey_eqb k k' then Some v else im_lookup k r
+  end.
+
+Lemma mkey_eqb_refl : forall k, mkey_eqb k k = true.
+Proof. intros [[p|] f]; unfold mkey_eqb; cbn; rewrite ?N.eqb_refl; reflexivity. Qed.
+Lemma mkey_eqb_eq : forall a b, mkey_eqb a b = true -> a = b.
+Proof.
+  intros [[p|] f] [[q|] g]; unfold mkey_eqb; cbn; intros H; try discriminate.
+  - apply andb_true_iff in H. destruct H as [H1 H2]. apply N.eqb_eq in H1, H2. subst. reflexivity.
+  - apply N.eqb_eq in H. subst. reflexivity.
+Qed.
+Lemma mkey_eqb_trans_false : forall k a b, mkey_eqb a b = true -> mkey_eqb k a = mkey_eqb k b.
+Proof. intros k a b H. apply mkey_eqb_eq in H. subst. reflexivity. Qed.
+
+Lemma lookup_insert_same : forall k v m, im_lookup k (im_insert k v m) = Some v.
+Proof.
+  intros k v. induction m as [|[k' v'] m IH]; cbn [im_insert im_lookup].
+  - rewrite mkey_eqb_refl. reflexivity.
+  - destruct (mkey_eqb k k') eqn:E; cbn [im_lookup].
+    + rewrite mkey_eqb_refl. reflexivity.
+    + rewrite E. exact IH.
+Qed.
+Lemma lookup_insert_other : forall k k' v m, mkey_eqb k k' = false -> im_lookup k (im_insert k' v m) = im_lookup k m.
+Proof.
+  intros k k' v. induction m as [|[k2 v2] m IH]; intros Hne; cbn [im_insert im_lookup].
+  - rewrite Hne. reflexivity.
+  - destruct (mkey_eqb k' k2) eqn:E; cbn [im_lookup].
+    + rewrite Hne. rewrite <- (mkey_eqb_trans_false k k' k2 E), Hne. reflexivity.
+    + rewrite IH by exact Hne. reflexivity.
+Qed.
+
+(* one field of an event of source s' with type ty: which keys it may write *)
+Lemma merge_field_other : forall srcs s' ty m fv K,
+    (forall g, mkey_eqb K (Some s', g) = false) ->
+    (N.eqb s' ty || existsb (N.eqb ty) srcs = false -> forall g, mkey_eqb K (Some ty, g) = false) ->
+    (forall g, mkey_eqb K (None, g) = false) ->
+    im_lookup K (merge_field srcs s' ty m fv) = im_lookup K m.
+Proof.
+  intros srcs s' ty m [f v] K H1 H2 H3. unfold merge_field.
+  destruct (N.eqb s' ty || existsb (N.eqb ty) srcs) eqn:E.
+  - destruct (im_contains (None, f) (im_insert (Some s', f) v m)).
+    + apply lookup_insert_other. apply H1.
+    + rewrite lookup_insert_other by apply H3. apply lookup_insert_other. apply H1.
+  - destruct (im_contains (None, f) (im_insert (Some ty, f) v (im_insert (Some s', f) v m))).
+    + rewrite lookup_insert_other by (apply H2; reflexivity). apply lookup_insert_other. apply H1.
+    + rewrite lookup_insert_other by apply H3. rewrite lookup_insert_other by (apply H2; reflexivity).
+      apply lookup_insert_other. apply H1.
+Qed.
+
+Lemma some_key_neq_src : forall s f s' g, s <> s' -> mkey_eqb (Some s, f) (Some s', g) = false.
+Proof. intros. unfold mkey_eqb. cbn. destruct (N.eqb s s') eqn:E; [apply N.eqb_eq in E; congruence | reflexivity]. Qed.
+Lemma some_key_neq_none : forall s f g, mkey_eqb (Some s, f) (None, g) = false.
+Proof. reflexivity. Qed.
+
+Lemma alias_not_source : forall srcs s s' ty f g,
+    In s srcs -> N.eqb s' ty || existsb (N.eqb ty) srcs = false -> mkey_eqb (Some s, f) (Some ty, g) = false.
+Proof.
+  intros srcs s s' ty f g Hin H. apply orb_false_iff in H. destruct H as [_ H].
+  apply some_key_neq_src. intros ->.
+  assert (existsb (N.eqb ty) srcs = true) by (apply existsb_exists; exists ty; split; [exact Hin | apply N.eqb_refl]).
+  congruence.
+Qed.
+
+(* an event of another source leaves "<s>.<f>" alone *)
+Lemma merge_event_other : forall srcs s f s' e' m,
+    In s srcs -> s <> s' ->
+    im_lookup (Some s, f) (merge_event srcs m (s', e')) = im_lookup (Some s, f) m.
+Proof.
+  intros srcs s f s' e' m Hin Hne. unfold merge_event. cbn [fst snd].
+  generalize dependent m. induction (jfields e') as [|fv fs IH]; intros m; cbn [fold_left]; [reflexivity|].
+  rewrite IH. apply merge_field_other.
+  - intros g. apply some_key_neq_src. exact Hne.
+  - intros H g. eapply alias_not_source; eauto.
+  - intros g. apply some_key_neq_none.
+Qed.
+
+(* the event of source s itself writes its own field values under "<s>.<field>" *)
+Lemma merge_field_own : forall srcs s ty m f f' v',
+    In s srcs ->
+    im_lookup (Some s, f) (merge_field srcs s ty m (f', v'))
+    = if N.eqb f f' then Some v' else im_lookup (Some s, f) m.
+Proof.
+  intros srcs s ty m f f' v' Hin. unfold merge_field.
+  assert (Hown : im_lookup (Some s, f) (im_insert (Some s, f') v' m) = if N.eqb f f' then Some v' else im_lookup (Some s, f) m).
+  { destruct (N.eqb f f') eqn:E.
+    - apply N.eqb_eq in E. subst. apply lookup_insert_same.
+    - apply lookup_insert_other. unfold mkey_eqb. cbn. rewrite N.eqb_refl, E. reflexivity. }
+  destruct (N.eqb s ty || existsb (N.eqb ty) srcs) eqn:E.
+  - destruct (im_contains (None, f') (im_insert (Some s, f') v' m)); [exact Hown|].
+    rewrite lookup_insert_other by apply some_key_neq_none. exact Hown.
+  - assert (Hal : mkey_eqb (Some s, f) (Some ty, f') = false) by (eapply alias_not_source; eauto).
+    destruct (im_contains (None, f') (im_insert (Some ty, f') v' (im_insert (Some s, f') v' m))).
+    + rewrite lookup_insert_other by exact Hal. exact Hown.
+    + rewrite lookup_insert_other by apply some_key_neq_none. rewrite lookup_insert_other by exact Hal. exact Hown.
+Qed.
+
+Lemma merge_fields_own : forall srcs s ty fs m f v,
+    In s srcs -> NoDup (map fst fs) -> In (f, v) fs ->
+    im_lookup (Some s, f) (fold_left (merge_field srcs s ty) fs m) = Some v.
+Proof.
+  intros srcs s ty fs. induction fs as [|[f' v'] fs IH]; intros m f v Hin Hnd Hf; [destruct Hf|].
+  cbn [fold_left]. cbn [map fst] in Hnd. inversion Hnd as [|? ? Hnot Hnd']; subst.
+  destruct Hf as [Heq | Hf].
+  - inversion Heq; subst. clear Heq.
+    (* later fields have other names: the value stays *)
+    assert (Hkeep : forall fs' m', ~ In f (map fst fs') ->
+                                   im_lookup (Some s, f) (fold_left (merge_field srcs s ty) fs' m') = im_lookup (Some s, f) m').
+    { induction fs' as [|[g w] fs' IH']; intros m' Hn; cbn [fold_left]; [reflexivity|].
+      rewrite IH' by (intros Hc; apply Hn; right; exact Hc).
+      rewrite (merge_field_own srcs s ty m' f g w Hin).
+      destruct (N.eqb f g) eqn:E; [| reflexivity]. apply N.eqb_eq in E. subst. exfalso. apply Hn. left. reflexivity. }
+    rewrite Hkeep by exact Hnot. rewrite (merge_field_own srcs s ty m f f v Hin), N.eqb_refl. reflexivity.
+  - apply IH; assumption.
+Qed.
+
+Lemma fold_merge_other : forall srcs s f ch m,
+    In s srcs -> ~ In s (map fst ch) ->
+    im_lookup (Some s, f) (fold_left (merge_event srcs) ch m) = im_lookup (Some s, f) m.
+Proof.
+  intros srcs s f ch. induction ch as [|[s' e'] ch IH]; intros m Hin Hn; cbn [fold_left]; [reflexivity|].
+  rewrite IH; [| exact Hin | intros Hc; apply Hn; right; exact Hc].
+  apply merge_event_other; [exact Hin | intros ->; apply Hn; left; reflexivity].
+Qed.
+
+Lemma correlated_fields : forall c ch s e f v,
+    In s (sources c) -> NoDup (map fst ch) -> In (s, e) ch ->
+    NoDup (map fst (jfields e)) -> In (f, v) (jfields e) ->
+    im_lookup (Some s, f) (snd (correlated c ch)) = Some v.
+Proof.
+  intros c ch s e f v Hs Hnd Hin Hfn Hf. unfold correlated. cbn [snd].
+  generalize (@nil (mkey * N)) as m.
+  induction ch as [|[s' e'] ch IH]; intros m; [destruct Hin|].
+  cbn [fold_left]. cbn [map fst] in Hnd. inversion Hnd as [|? ? Hnot Hnd']; subst.
+  destruct Hin as [Heq | Hin].
+  - inversion Heq; subst. clear Heq.
+    rewrite fold_merge_other by assumption.
+    unfold merge_event. cbn [fst snd]. apply merge_fields_own; assumption.
+  - apply IH; assumption.
+Qed.
+
+Lemma all_some_pair_fst : forall (g : N -> option jev) srcs ch,
+    all_some (map (fun s => option_map (pair s) (g s)) srcs) = Some ch -> map fst ch = srcs.
+Proof.
+  intros g. induction srcs as [|s srcs IH]; intros ch H; cbn [map all_some] in H.
+  - inversion H. reflexivity.
+  - destruct (g s) as [e|]; cbn [option_map] in H; [| discriminate].
+    destruct (all_some (map (fun s0 => option_map (pair s0) (g s0)) srcs)) as [l|] eqn:El; [| discriminate].
+    inversion H. subst. cbn [map fst]. f_equal. apply IH. reflexivity.
+Qed.
+
+Lemma spec_out_sources : forall c past a ch, spec_out c past a = Some ch -> map fst ch = sources c.
+Proof.
+  intros c past a ch H. unfold spec_out in H. destruct (key_of c a) as [k|]; [| discriminate].
+  eapply all_some_pair_fst. exact H.
+Qed.
+
+Lemma output_fields : forall c past a ch s e f v,
+    NoDup (sources c) -> spec_out c past a = Some ch -> In (s, e) ch ->
+    NoDup (map fst (jfields e)) -> In (f, v) (jfields e) ->
+    im_lookup (Some s, f) (snd (correlated c ch)) = Some v.
+Proof.
+  intros c past a ch s e f v Hnd Hsp Hin Hfn Hf.
+  pose proof (spec_out_sources c past a ch Hsp) as Hsrc.
+  apply (correlated_fields c ch s e f v); auto.
+  - rewrite <- Hsrc. apply (in_map fst) in Hin. exact Hin.
+  - rewrite Hsrc. exact Hnd.
+Qed.
